@@ -10,7 +10,8 @@ EXPLANATION = (
     'url().to_string(), the awaited take_body().into_bytes() or an empty Vec, and the enumeration of all names and all values of '
     'each name); R14.b nothing else constructs an HttpRequest from a Request and both APIs call that one conversion; R14.c each '
     'endpoint emits exactly one effect, outside any loop; R14.d every builder method of the command API and of the capability '
-    'API resolves to the same Request/http_types callees. URL, query and body encoding inside url/http_types is trusted.')
+    'API resolves to the same Request/http_types callees; R14.e every mutating method of crux_http::Request forwards to exactly the same-named '
+    'http_types method and changes nothing else. URL, query and body encoding inside url/http_types is trusted.')
 
 HT = 'http_types_red_badger_temporary_fork'
 SIBLINGS = ['header', 'content_type', 'body', 'body_json', 'body_string', 'body_bytes', 'body_form', 'query', 'middleware']
@@ -31,6 +32,7 @@ def check(ctx, rep):
         check_single(rep, http, cfg)
         check_emission(rep, http, cfg)
         check_siblings(rep, http, cfg)
+        check_forwarders(rep, http, cfg)
     rep.assume('http_types Request::{method,url,take_body,set_body,insert_header,set_query}, Body::{from_json,from_string,from_form,'
                'into_bytes} and url::Url behave as documented (third-party)')
 
@@ -115,10 +117,21 @@ def check_conversion(rep, http, cfg):
                     if o.kind == 'agg' and o.stmt['rv'].get('ak') == 'closure':
                         outer = o.stmt['rv']['def']
             cur = t['args'][0]
-    rep.expect('R14.a', ok and chain == ['flat_map', 'iter'] and outer is not None, 'headers-chain',
-               'headers = self.iter().flat_map(..).collect() with no other adaptor',
-               'HttpRequest.headers is no longer the plain enumeration of the header map: chain %s' % chain, site=site + '#headers')
-    if outer:
+    loop_form = None
+    if not (ok and chain == ['flat_map', 'iter'] and outer is not None):
+        loop_form = headers_loop_form(f, fields['headers'])
+    if loop_form is not None:
+        rep.expect('R14.a', loop_form[0], 'headers-chain', 'headers are pushed in a loop over self.iter() (%s)' % loop_form[1],
+                   'HttpRequest.headers is no longer the plain enumeration of the header map: %s' % loop_form[1], site=site + '#headers')
+        rep.expect('R14.a', loop_form[0], 'all-values', 'every value of each header name is pushed (inner loop over HeaderValues::iter, unconditional push)',
+                   'the header enumeration no longer covers all values of a name: %s' % loop_form[1], site=site + '#all-values')
+        rep.expect('R14.a', loop_form[0], 'header-pair', 'HttpHeader { name: name.to_string(), value: value.to_string() }',
+                   'the HttpHeader built per value no longer takes the iterated name and value: %s' % loop_form[1], site=site + '#pair')
+    else:
+        rep.expect('R14.a', ok and chain == ['flat_map', 'iter'] and outer is not None, 'headers-chain',
+                   'headers = self.iter().flat_map(..).collect() with no other adaptor',
+                   'HttpRequest.headers is no longer the plain enumeration of the header map: chain %s' % chain, site=site + '#headers')
+    if outer and loop_form is None:
         og = http.by_exact(outer)
         inner_def = None
         all_values = False
@@ -211,6 +224,56 @@ def guard_eval(f, getter, target_blocks):
     return out
 
 
+def headers_loop_form(f, headers_op):
+    """headers built by `for (name, values) in self.iter() { for value in values.iter() { v.push(HttpHeader{..}) } }`"""
+    vecs = [o for o in origins(f, headers_op) if o.kind == 'call' and call_matches(o.term, ['alloc::vec::Vec::new', 'alloc::vec::Vec::with_capacity'])]
+    if len(vecs) != 1 or len(origins(f, headers_op)) != 1:
+        return None
+    v = vecs[0].term['d']['l']
+    pushes = [(bb, t) for bb, t in f.calls('alloc::vec::Vec::push') if any(o.kind == 'call' and o.bb == vecs[0].bb for o in origins(f, t['args'][0]))]
+    if len(pushes) != 1:
+        return (False, '%d pushes into the header vector' % len(pushes))
+    pb, pt = pushes[0]
+    nexts = [(bb, t) for bb, t in f.calls('core::iter::traits::iterator::Iterator::next') if 'desugar:ForLoop' in (t.get('x') or [])]
+    outer = [(bb, t) for bb, t in nexts if any(o.kind == 'call' and path_matches(o.term.get('callee'), 'crux_http::request::Request::iter')
+                                               for o in origins(f, t['args'][0]))]
+    inner = [(bb, t) for bb, t in nexts if any(o.kind == 'call' and path_matches(o.term.get('callee'), HT + '::headers::header_values::HeaderValues::iter')
+                                               for o in origins(f, t['args'][0]))]
+    if len(outer) != 1 or len(inner) != 1:
+        return (False, 'expected one loop over Request::iter() and one over HeaderValues::iter(), found %d / %d' % (len(outer), len(inner)))
+    ob, ot = outer[0]
+    ib, it = inner[0]
+
+    def some_target(nb, nt):
+        res = nt['d']['l']
+        for sb, st in f.terms('switch'):
+            if any(o.kind == 'rvalue' and o.stmt['rv']['k'] == 'discr' and o.stmt['rv']['a']['l'] == res for o in origins(f, st['a'])):
+                for val, b in st['arms']:
+                    if val == 1:
+                        return b
+        return None
+    its = some_target(ib, it)
+    ots = some_target(ob, ot)
+    if its is None or ots is None:
+        return (False, 'loop structure not recognised')
+    # every value is pushed: from the inner Some edge every path back to the inner next passes the push; the outer Some edge always reaches the inner loop
+    every_value = ib not in f.reachable([its], removed_blocks=[pb]) and pb in f.reachable([its])
+    every_name = ob not in f.reachable([ots], removed_blocks=[ib]) and ib in f.reachable([ots])
+    # the pushed header takes name from the outer item and value from the inner item, through to_string only
+    pair = False
+    for o in origins(f, pt['args'][1]):
+        if o.kind == 'agg' and path_matches(o.stmt['rv'].get('adt'), 'crux_http::protocol::HttpHeader'):
+            fl = dict(zip(o.stmt['rv']['fields'], o.stmt['rv']['ops']))
+
+            def via_tostring_of(op, call_bb, want_suffix):
+                srcs = origins(f, op)
+                return bool(srcs) and all(x.kind == 'call' and call_matches(x.term, ['alloc::string::ToString::to_string']) and
+                                          all(y.kind == 'call' and y.bb == call_bb and want_suffix(y.suffix) for y in origins(f, x.term['args'][0]))
+                                          and origins(f, x.term['args'][0]) for x in srcs)
+            pair = via_tostring_of(fl['name'], ob, lambda suf: '.0' in suf) and via_tostring_of(fl['value'], ib, lambda suf: suf[:2] == ['as Some', '.0'])
+    return (every_value and every_name and pair, 'every value pushed: %s; every name visited: %s; pair from (name, value): %s' % (every_value, every_name, pair))
+
+
 def check_single(rep, http, cfg):
     n = 0
     for f in http.built:
@@ -232,7 +295,9 @@ def check_single(rep, http, cfg):
         for bb, t in f.calls('crux_http::protocol::ProtocolRequestBuilder::into_protocol_request'):
             callers.append(f)
     names = sorted(set(c.kpath for c in callers))
-    rep.expect('R14.b', len(names) == 2 and any('client::Client::send' in x for x in names) and
+    from rules.props import c16
+    under = c16.endpoints_under_next(http)
+    rep.expect('R14.b', len(names) == 2 and any(c16.is_under(c, under) for c in callers) and
                any('command::RequestBuilder::build' in x for x in names), 'callers',
                'called from the client endpoint and from the command builder',
                'into_protocol_request is called from %s (expected the client endpoint and the command builder)' % names,
@@ -282,3 +347,37 @@ def check_siblings(rep, http, cfg):
         rep.expect('R14.d', ca == cb and ca, key, 'both resolve to %s' % sorted(ca),
                    'builder method `%s` differs between the command API %s and the capability API %s' % (name, sorted(ca), sorted(cb)),
                    site=key + '@' + cfg)
+
+
+# methods of http_types::Request that change the request
+HT_MUTATORS = {'set_body', 'replace_body', 'swap_body', 'take_body', 'insert_header', 'append_header', 'remove_header', 'set_content_type',
+               'set_query', 'set_ext', 'url_mut', 'header_mut', 'set_method', 'set_version', 'set_peer_addr', 'set_local_addr', 'copy_content_type_from_body'}
+
+
+def check_forwarders(rep, http, cfg):
+    """R14.e: crux_http::Request is a thin wrapper: each of its methods that changes the underlying http_types request does so through
+    exactly the same-named http_types method and touches nothing else (nothing is added to or removed from what the app described)"""
+    rep.rule('R14.e', 'every method of crux_http::Request that mutates the wrapped request forwards to the same-named http_types method and does nothing else to it', floor=6)
+    n = 0
+    for f in http.built:
+        if f.kind != 'AssocFn' or f.j.get('exp') or not path_matches(f.assoc.get('self_adt'), 'crux_http::request::Request') or f.assoc.get('trait'):
+            continue
+        muts = []
+        for g in [f] + http.closures_of(f):
+            for bb, t in g.calls():
+                c = norm(t.get('callee') or '')
+                if c.startswith(HT + '::request::Request::') and last_seg(c) in HT_MUTATORS:
+                    muts.append((g, bb, last_seg(c)))
+        if not muts:
+            continue
+        n += 1
+        names = [m[2] for m in muts]
+        key = '%s|forwards' % f.kpath
+        expected = {f.name}
+        if f.name == 'as_mut' or f.name == 'take_middleware':
+            continue
+        rep.expect('R14.e', set(names) <= expected and len(names) == 1, key, 'forwards to http_types::Request::%s only' % f.name,
+                   'crux_http::Request::%s changes the wrapped request through %s: besides forwarding, it adds, removes or replaces something the '
+                   'app described (e.g. a Content-Type set before the body)' % (f.name, sorted(names)), site=key + '@' + cfg)
+    if n < 6:
+        rep.bad('R14.e', 'sites@' + cfg, 'expected at least 6 forwarding mutators on crux_http::Request, found %d' % n)
